@@ -71,6 +71,7 @@ EvalE(e, env) ==
 
 (* statements: one record shape for all kinds *)
 SAsg(v, e) == [k |-> "asg", v |-> v, e |-> e, t |-> <<>>, f |-> <<>>]
+SPAsg(v1, e1, v2, e2) == [k |-> "pasg", v |-> v1, e |-> e1, t |-> <<SAsg(v2, e2)>>, f |-> <<>>]   \* v1, v2 = e1, e2  (parallel)
 SIf(c, t, f) == [k |-> "if", v |-> c, e |-> EC(0), t |-> t, f |-> f]        \* if c > 0:
 SFor(lv, b, t) == [k |-> "for", v |-> lv, e |-> b, t |-> t, f |-> <<>>]    \* for lv in range(b):
 SWhile(t) == [k |-> "while", v |-> "w", e |-> EC(0), t |-> t, f |-> <<>>]   \* while w:
@@ -97,6 +98,11 @@ Exec(s, env) ==
   CASE s.k = "asg" -> LET x == EvalE(s.e, env) IN IF x = UNDEF THEN [env EXCEPT !["#"] = 1]
                                                   ELSE IF x > LIMIT \/ x < -LIMIT THEN [env EXCEPT !["#"] = 3]   \* keep TLC's 32-bit integers safe
                                                   ELSE [env EXCEPT ![s.v] = x]
+    [] s.k = "pasg" -> \* Python evaluates the whole right-hand side before it binds any target
+                       LET x1 == EvalE(s.e, env) x2 == EvalE(s.t[1].e, env) IN
+                       IF x1 = UNDEF \/ x2 = UNDEF THEN [env EXCEPT !["#"] = 1]
+                       ELSE IF x1 > LIMIT \/ x1 < -LIMIT \/ x2 > LIMIT \/ x2 < -LIMIT THEN [env EXCEPT !["#"] = 3]
+                       ELSE [env EXCEPT ![s.v] = x1, ![s.t[1].v] = x2]
     [] s.k = "if" -> IF env[s.v] = UNDEF THEN [env EXCEPT !["#"] = 1]
                      ELSE IF env[s.v] > 0 THEN ExecB(s.t, env) ELSE ExecB(s.f, env)
     [] s.k = "for" -> LET n == EvalE(s.e, env) IN IF n = UNDEF THEN [env EXCEPT !["#"] = 1]
@@ -108,7 +114,10 @@ Exec(s, env) ==
 (* analysis.py *)
 RECURSIVE Assigned(_), AssignedB(_)
 AssignedB(b) == IF b = <<>> THEN {} ELSE Assigned(Head(b)) \cup AssignedB(Tail(b))
+PDefs(s) == {s.v, s.t[1].v}
+PUses(s) == UsedE(s.e) \cup UsedE(s.t[1].e)
 Assigned(s) == CASE s.k = "asg" -> {s.v}
+                 [] s.k = "pasg" -> PDefs(s)
                  [] s.k = "if" -> AssignedB(s.t) \cup AssignedB(s.f)
                  [] s.k = "for" -> AssignedB(s.t) \cup {s.v}
                  [] s.k = "while" -> AssignedB(s.t)
@@ -131,6 +140,7 @@ FixWhile(s, out, prev, cur, devs) ==
        IN FixWhile(s, out, cur, nxt, devs)
 LiveS(s, out, devs) ==
   CASE s.k = "asg" -> (out \ {s.v}) \cup UsedE(s.e)
+    [] s.k = "pasg" -> (out \ PDefs(s)) \cup PUses(s)
     [] s.k = "if" -> LiveB(s.t, out, devs) \cup LiveB(s.f, out, devs) \cup {s.v}
     [] s.k = "for" -> FixFor(s, out, {"__none__"}, out, devs)       \* range(bound) is evaluated once, before the loop
                       \cup (IF "for_bound_not_live" \in devs THEN {} ELSE UsedE(s.e))
@@ -144,6 +154,7 @@ RECURSIVE ExpS(_, _), ExpB(_, _)
 ExpB(b, out) == IF b = <<>> THEN out ELSE ExpS(Head(b), ExpB(Tail(b), out))
 ExpS(s, out) ==
   CASE s.k = "asg" -> (out \ {s.v}) \cup UsedE(s.e)
+    [] s.k = "pasg" -> (out \ PDefs(s)) \cup PUses(s)
     [] s.k = "if" -> ExpB(s.t, out) \cup ExpB(s.f, out) \cup {s.v}
     [] s.k = "for" -> (ExpB(s.t, {}) \ {s.v}) \cup UsedE(s.e) \cup (out \ {s.v})
     [] s.k = "while" -> ExpB(s.t, {}) \cup {s.v} \cup out
@@ -163,6 +174,10 @@ TransB(b, B, top, out, devs) ==      \* returns <<B', top', ok>>
        IN IF ~r[3] THEN r ELSE TransB(Tail(b), r[1], r[2], out, devs)
 TransS(s, B, top, out, devs) ==
   CASE s.k = "asg" -> <<B \cup {s.v}, top \cup {s.v}, UsedE(s.e) \subseteq B>>
+    [] s.k = "pasg" -> \* "tuple_assign_sequential": each `target = expression` pair is translated and bound in turn
+                       <<B \cup PDefs(s), top \cup PDefs(s),
+                         /\ UsedE(s.e) \subseteq B
+                         /\ UsedE(s.t[1].e) \subseteq (IF "tuple_assign_sequential" \in devs THEN B \cup {s.v} ELSE B)>>
     [] s.k = "if" ->
          LET O == IfOutputs(s, out)
              rt == TransB(s.t, B, {}, out, devs)
@@ -219,6 +234,7 @@ GIterWhile(s, outer, carried, cond, fuel, bout) ==
        IN GIterWhile(s, outer, Restrict(carried, e1, bout.Sv), IF Bad(e1) THEN 0 ELSE e1["w"], fuel - 1, bout)
 GExec(s, env, out, devs) ==
   CASE s.k = "asg" -> Exec(s, env)
+    [] s.k = "pasg" -> IF "tuple_assign_sequential" \in devs THEN ExecB(<<SAsg(s.v, s.e), s.t[1]>>, env) ELSE Exec(s, env)
     [] s.k = "if" -> IF env[s.v] = UNDEF THEN [env EXCEPT !["#"] = 1]
                      ELSE LET br == IF env[s.v] > 0 THEN s.t ELSE s.f
                           IN Restrict(env, GExecB(br, env, out, devs), IfOutputs(s, out))
@@ -262,6 +278,13 @@ AddAsg == /\ CanAdd /\ ~HasBrk(Top.blk)
           /\ \E a \in AsgMenu : stack' = AppendTop(stack, SAsg(a.v, a.e))
           /\ nodes' = nodes + 1
           /\ UNCHANGED <<stage, prog, ret, refused, res, info>>
+\* parallel assignment to both variables (both target orders)
+PMenu == {EV("x"), EV("y"), EAddC("x", 1), EMul("x", "y")}
+AddPAsg == /\ "pasg" \in Kinds /\ CanAdd /\ ~HasBrk(Top.blk)
+           /\ \E e1 \in PMenu, e2 \in PMenu, o \in {1, 2} :
+                stack' = AppendTop(stack, IF o = 1 THEN SPAsg("x", e1, "y", e2) ELSE SPAsg("y", e1, "x", e2))
+           /\ nodes' = nodes + 1
+           /\ UNCHANGED <<stage, prog, ret, refused, res, info>>
 OpenIf == /\ "if" \in Kinds /\ CanAdd /\ Len(stack) <= MaxDepth /\ ~HasBrk(Top.blk)
           /\ \E c \in CondVars : Push(Frame("if", c, EC(0)))
           /\ nodes' = nodes + 1
@@ -321,7 +344,7 @@ Finish == /\ stage = "build" /\ Len(stack) = 1 /\ Top.blk # <<>> /\ nodes >= Min
                                  why |-> {d \in Deviations : Translate(Top.blk, r, Deviations \ {d}) # impl}]
           /\ stage' = "done"
           /\ UNCHANGED <<stack, nodes>>
-Next == AddAsg \/ OpenIf \/ Else \/ OpenFor \/ OpenWhile \/ AddBreak \/ Close \/ Finish
+Next == AddAsg \/ AddPAsg \/ OpenIf \/ Else \/ OpenFor \/ OpenWhile \/ AddBreak \/ Close \/ Finish
 Spec == Init /\ [][Next]_vars
 
 \* one JSON line per derived program (read by the conformance harness)
@@ -331,14 +354,19 @@ Emit == stage = "done" => PrintT(<<"CASE", ToJson([prog |-> prog, ret |-> ret, r
 FaithfulOf(rf, rs) == rf \/ \A k \in 1..Len(rs) : rs[k].py[1] = "ok" => rs[k].gr = rs[k].py
 DesignFaithful == stage = "done" => FaithfulOf(info.idealRefused, info.idealRes)
 DeviationsExplain == stage = "done" => (FaithfulOf(refused, res) \/ info.why # {})
+\* the implementation model itself is faithful (violated under the deviations of OldDevs: the bounded model reaches them)
+ImplFaithful == stage = "done" => FaithfulOf(refused, res)
 \* vacuity witnesses
 SomeAcceptedLoopIf == ~(stage = "done" /\ ~refused /\ \E j \in 1..Len(prog) : prog[j].k = "for" /\ \E m \in 1..Len(prog[j].t) : prog[j].t[m].k = "if")
 AllKinds == {"if", "for", "while", "brk"}
+PAsgKinds == {"pasg", "if", "for"}
+TupleDevs == {"tuple_assign_sequential"}
 LoopKinds == {"for"}
 IfForKinds == {"if", "for"}
 NoDevs == {}
 \* both deviations were real on the pinned tree and are fixed in /repo (commit "fix: loop liveness ..."):
 \* the implementation model now runs without them; a regression re-introducing either shows up as a violation
 RealDevs == {}
-OldDevs == {"loop_livein_drops_liveout", "for_bound_not_live"}
+\* "tuple_assign_sequential" (x, y = y, x translated as x = y; y = x) was found by this spec and is fixed as well
+OldDevs == {"loop_livein_drops_liveout", "for_bound_not_live", "tuple_assign_sequential"}
 =============================================================================
